@@ -3,7 +3,7 @@
 # runs ALL checks on it: every check must stay silent (exit 0).  Prints one line per edit.
 cd "$(dirname "$0")/.."
 rc=0
-for f in controls/benign/*.diff; do
+for f in controls/benign/*.diff controls/benign_agents/*.diff; do
   T=$(mktemp -d /tmp/benign.XXXXXX)
   rsync -a --exclude target --exclude .git /repo/ "$T/repo/"
   ( cd "$T/repo" && patch -p1 --no-backup-if-mismatch -s -i "$OLDPWD/$f" ) || { echo "$f: PATCH DOES NOT APPLY"; rm -rf "$T"; rc=1; continue; }
